@@ -124,6 +124,20 @@ theorem cache_transparent_full (D : FullData α) (cols : List (FullCol α)) (ufs
     applyFullSeq save D cols ufs = ufs.map fun uf => (applyFull none D cols uf).1 :=
   applyFullSeq_eq D cols ufs save h
 
+/-- ★ `d = d_static + d_dynamic` for EVERY row of EVERY column the whole routine returns (partition
+layer and early return included), whatever the cache holds -/
+theorem uf_split_full_routine (save : Option (SaveBlock α)) (D : FullData α) (cols : List (FullCol α))
+    (uf : Uf α) : ∀ o ∈ (applyFull save D cols uf).1, o.d = vadd o.ds o.dd := by
+  intro o ho
+  unfold applyFull at ho
+  split_ifs at ho
+  · simp only [List.mem_map] at ho
+    obtain ⟨c, -, rfl⟩ := ho
+    rfl
+  · simp only [List.mem_iff_getElem, List.length_zipWith, List.getElem_zipWith] at ho
+    obtain ⟨i, hi, rfl⟩ := ho
+    rfl
+
 theorem cache_transparent_blocks (B : Blocks α) (cols : List (Col α)) (ufs : List (Uf α))
     (save : Option (SaveBlock α))
     (h : save = none ∨ save = some ⟨cols.map (preBlock B), B.kinvE, B.kinvR⟩) :
